@@ -43,3 +43,150 @@ SEARCH = {'c02_dynamic_type_condition': ['c02_exec']}
 BOUNDED = {'C02': [dict(case='c02_exec', function='dynamic::Schema::execute: collect_fields, resolve, resolve_value, resolve_list, create_value_object',
                         bound='14 hand-written (query, expected JSON text) pairs on a dynamic schema with objects, an interface, a union, lists, scalars and enums',
                         why='the dynamic executor is async over boxed futures; only the type-condition statement is under contract')]}
+
+
+# ----------------------------------------------------------------------------------------------------------------------
+# value completion: resolve / resolve_value (await-erased) -- what reaches the response conforms to the declared type
+from vx.unit import AwaitErase, CallSub, ClosureMatch, MacroCall  # noqa: E402
+from specs.common import value_types                                 # noqa: E402
+
+T = 'src/dynamic/type.rs'
+TR = 'src/dynamic/type_ref.rs'
+FV = 'src/dynamic/field.rs'
+
+COMPLETE_SHIMS = r'''
+// ---- field-subset shims of the dynamic type descriptions (conformance-checked)
+#[verifier::external_body]
+pub struct ScalarValidatorFn { _p: u8 }        // Arc<dyn Fn(&Value) -> bool>: opaque, deterministic
+pub struct Scalar { pub name: String, pub validator: Option<ScalarValidatorFn> }
+impl Scalar {
+    pub uninterp spec fn spec_validate(&self, v: Value) -> bool;
+    // Scalar::validate: `match &self.validator { Some(f) => f(value), None => true }` -- the closure call is opaque
+    #[verifier::external_body]
+    pub fn validate(&self, value: &Value) -> (r: bool) ensures r == self.spec_validate(*value) { unimplemented!() }
+}
+pub struct EnumItem { pub name: String }
+pub struct Enum { pub name: String, pub enum_values: StrMap<EnumItem> }
+pub struct Object { pub name: String }
+pub struct InputObject { pub name: String }
+pub struct Interface { pub name: String }
+pub struct Union { pub name: String, pub possible_types: StrSet }
+pub struct Subscription { pub name: String }
+pub enum MetaType { Interface { possible_types: StrSet }, Union { possible_types: StrSet }, Other { name: String } }
+pub struct Registry { pub types: StrMap<MetaType> }
+pub struct SchemaEnv { pub registry: Registry }
+pub struct SchemaInner { pub env: SchemaEnv, pub types: StrMap<Type> }
+pub struct Schema(pub SchemaInner);
+impl<V> StrMap<V> {
+    // IndexMap's Index<&str>: panics when the key is absent
+    #[verifier::external_body]
+    pub fn idx(&self, k: &str) -> (r: &V) requires self.view().contains_key(k@) ensures *r == self.view()[k@] { unimplemented!() }
+}
+#[verifier::external_body] pub struct AnyRef { _p: u8 }      // &'a (dyn Any + Send + Sync)
+#[verifier::external_body] pub struct AnyBox { _p: u8 }      // Box<dyn Any + Send + Sync>
+pub struct ServerError { pub id: u64 }
+pub type ServerResult<T> = Result<T, ServerError>;
+#[verifier::external_body]
+pub fn verif_server_error() -> (r: ServerError) { unimplemented!() }
+pub struct Context { pub _p: u8 }
+impl Clone for Value { #[verifier::external_body] fn clone(&self) -> (r: Self) ensures r == *self { unimplemented!() } }
+pub fn name_of(s: &String) -> (r: Name) ensures r@ == s@ { s.clone() }
+// ---- callees left abstract (await-erased async fns), with the contracts their bodies are read to have
+// resolve_container(schema, object, &ctx.with_selection_set(..), value, true): `Ok(Some(create_value_object(res)))` or an error
+#[verifier::external_body]
+pub fn resolve_object(object: &Object, value: &FieldValue) -> (r: ServerResult<Option<Value>>)
+    ensures r is Ok ==> r->Ok_0 is Some && r->Ok_0->Some_0 is Object { unimplemented!() }
+// resolve_list: every item is completed by `resolve(schema, ctx_item, type_ref, Some(item))`, a `None` result becoming `Null`
+#[verifier::external_body]
+pub fn resolve_list(schema: &Schema, ctx: &Context, type_ref: &TypeRef, values: &Vec<FieldValue>) -> (r: ServerResult<Option<Value>>)
+    ensures r is Ok ==> r->Ok_0 is Some && r->Ok_0->Some_0 is List && r->Ok_0->Some_0->List_0@.len() == values@.len()
+        && forall|i: int| 0 <= i < values@.len() ==> conforms(schema, *type_ref, #[trigger] r->Ok_0->Some_0->List_0@[i]) { unimplemented!() }
+// values.iter().cloned().map(FieldValue::value).collect::<Vec<_>>()
+#[verifier::external_body]
+pub fn values_as_field_values(values: &Vec<Value>) -> (r: Vec<FieldValue>)
+    ensures r@.len() == values@.len(), forall|i: int| 0 <= i < values@.len() ==> (#[trigger] r@[i]).0 == FieldValueInner::Value(values@[i]) { unimplemented!() }
+'''
+
+COMPLETE_SPEC = r'''
+// every type name a TypeRef mentions is registered (established by the schema build check, C33)
+pub open spec fn known(schema: &Schema, tr: TypeRef) -> bool decreases tr {
+    match tr { TypeRef::Named(n) => schema.0.types.view().contains_key(n@), TypeRef::NonNull(t) => known(schema, *t), TypeRef::List(t) => known(schema, *t) }
+}
+// GraphQL spec, CompleteValue: what a position of named type `t` may hold besides null
+pub open spec fn leaf_ok(t: Type, v: Value) -> bool {
+    match t {
+        Type::Scalar(s) => s.spec_validate(v),                                                   // the scalar's own check accepted it
+        Type::Enum(e) => v is Enum && e.enum_values.view().contains_key(v->Enum_0@),             // a declared enum value
+        Type::Object(_) => v is Object, Type::Interface(_) => v is Object, Type::Union(_) => v is Object,
+        _ => false,
+    }
+}
+pub open spec fn conforms(schema: &Schema, tr: TypeRef, v: Value) -> bool decreases tr {
+    match tr {
+        TypeRef::NonNull(t) => !(v is Null) && conforms(schema, *t, v),                          // a non-null position never holds null
+        TypeRef::List(t) => v is Null || (v is List && forall|i: int| 0 <= i < v->List_0@.len() ==> conforms(schema, *t, #[trigger] v->List_0@[i])),
+        TypeRef::Named(n) => v is Null || (schema.0.types.view().contains_key(n@) && leaf_ok(schema.0.types.view()[n@], v)),
+    }
+}
+'''
+
+
+def complete_unit(kf):
+    u = Unit('c02_complete', ['C02'], 'dynamic resolve / resolve_value: a completed value conforms to the declared type; nothing for a non-null type is an error')
+    u.kf = kf
+    value_types(u, const_alias='Value')
+    u.prelude('registry_shim')
+    u.prelude('string_eq')
+    u.extract_type(TR, ['enum TypeRef'], rewrites=[Sub("Cow<'static, str>", 'String', rule='R-ty')])
+    u.extract_type(T, ['enum Type'])
+    u.extract_type(FV, ['struct FieldValue'], rewrites=[Sub("FieldValue<'a>(pub(crate) FieldValueInner<'a>)", 'FieldValue(pub FieldValueInner)', rule='R-ty')])
+    u.extract_type(FV, ['enum FieldValueInner'],
+                   rewrites=[Sub("pub(crate) enum FieldValueInner<'a>", 'pub enum FieldValueInner', rule='R-ty'),
+                             Sub("Cow<'static, str>", 'String', count=3, rule='R-ty'),
+                             Sub("&'a (dyn Any + Send + Sync)", 'AnyRef', rule='R-ty'), Sub('Box<dyn Any + Send + Sync>', 'AnyBox', rule='R-ty'),
+                             Sub("Vec<FieldValue<'a>>", 'Vec<FieldValue>', rule='R-ty'), Sub("Box<FieldValue<'a>>", 'Box<FieldValue>', rule='R-ty')])
+    u.trusted(COMPLETE_SHIMS, 'dynamic type / schema / callee shims')
+    u.shim_conformance('src/dynamic/scalar.rs', ['struct Scalar'], [('name', 'String'), ('validator', 'Option<ScalarValidatorFn>')])
+    u.shim_conformance('src/dynamic/enum.rs', ['struct Enum'], [('name', 'String'), ('enum_values', 'IndexMap<String, EnumItem>')])
+    u.shim_conformance('src/dynamic/union.rs', ['struct Union'], [('name', 'String'), ('possible_types', 'IndexSet<String>')])
+    u.shim_conformance('src/dynamic/interface.rs', ['struct Interface'], [('name', 'String')])
+    u.shim_conformance('src/dynamic/object.rs', ['struct Object'], [('name', 'String')])
+    u.shim_conformance('src/dynamic/schema.rs', ['struct SchemaInner'], [('env', 'SchemaEnv'), ('types', 'IndexMap<String, Type>')])
+    u.shim_conformance('src/registry/mod.rs', ['enum MetaType'], [('possible_types', 'IndexSet<String>')], variant='Interface')
+    u.shim_conformance('src/registry/mod.rs', ['enum MetaType'], [('possible_types', 'IndexSet<String>')], variant='Union')
+    u.spec(COMPLETE_SPEC, 'CompleteValue conformance')
+    u.extract_fn(T, ['impl Type', 'fn as_object'], wrap_impl='Type', sig_rewrites=[ReSub(r'pub\(crate\) fn', 'fn')],
+                 ensures=['match *self { Type::Object(o) => r == Some(&o), _ => r is None }'])
+    u.extract_fn('src/registry/mod.rs', ['impl MetaType', 'fn possible_types'], wrap_impl='MetaType',
+                 sig_rewrites=[ReSub(r'IndexSet<String>', 'StrSet')],
+                 ensures=['match *self { MetaType::Interface { possible_types, .. } => r == Some(&possible_types), MetaType::Union { possible_types, .. } => r == Some(&possible_types), _ => r is None }'])
+    err = CallSub('ctx.set_error_path', 'verif_server_error()', rule='R-msg', count='+')
+    rc = lambda obj: Sub(f'resolve_container( schema, {obj}, &ctx.with_selection_set(&ctx.item.node.selection_set), value, true, )', f'resolve_object({obj}, value)', rule='R-await')
+    u.extract_fn(F, ['fn resolve_value'],
+                 sig_rewrites=[AwaitErase(), ReSub(r"&Context<'_>", '&Context'), ReSub(r"&FieldValue<'_>", '&FieldValue')],
+                 rewrites=[AwaitErase(), err, rc('object'), Sub('resolve_container( schema, object_type, &ctx.with_selection_set(&ctx.item.node.selection_set), value, true, )', 'resolve_object(object_type, value)', count=2, rule='R-await'),
+                           ClosureMatch('opt.ok_or_else', count=4), ClosureMatch('opt.map', count=1), ClosureMatch('opt.and_then', count=1),
+                           Sub('.unwrap_or_default()', '.unwrap_or(false)', count=1, rule='R-ty'),
+                           Sub('ty.as_ref()', 'ty.as_str()', count='+', rule='R-ty'),
+                           Sub('Name::new(name)', 'name_of(name)', rule='R-ty')],
+                 ensures=['r is Ok ==> r->Ok_0 is Some && leaf_ok(*field_type, r->Ok_0->Some_0)   // a scalar passed its check, an enum value is declared, composite types complete to objects',
+                          '*field_type is InputObject ==> r is Err'])
+    u.extract_fn(F, ['fn resolve'],
+                 sig_rewrites=[ReSub(r"BoxFuture<'a, ServerResult<Option<Value>>>", 'ServerResult<Option<Value>>'), ReSub(r"Context<'a>", 'Context'), ReSub(r'pub\(crate\) fn', 'fn')],
+                 rewrites=[AwaitErase(), Sub('.boxed()', '', rule='R-await'), err,
+                           Sub('&schema.0.types[type_name.as_ref()]', 'schema.0.types.idx(type_name.as_str())', rule='R-ty'),
+                           Sub('let values = values .iter() .cloned() .map(FieldValue::value) .collect::<Vec<_>>();', 'let values = values_as_field_values(values);', rule='R-payload')],
+                 requires=['known(schema, *type_ref)   // every named type is registered (schema build check, C33)'],
+                 ensures=['r is Ok && r->Ok_0 is Some ==> conforms(schema, *type_ref, r->Ok_0->Some_0)   // what reaches the response conforms to the declared type; in particular a non-null position never holds null',
+                          'r is Ok && r->Ok_0 is None ==> !(*type_ref is NonNull)   // "nothing" is only ever reported for a nullable type',
+                          'value is None ==> (if *type_ref is NonNull { r is Err } else { r == Ok::<Option<Value>, ServerError>(None) })'],
+                 decreases='*type_ref')
+    u.assume('R-await: resolve / resolve_value read sequentially; resolve_container (object completion) and resolve_list (per-item completion through the extension chain) are abstract callees with the contracts stated on their shims (unverified)')
+    u.assume('`known`: every type name a field type mentions is registered -- established by SchemaInner::check at build time (C33), unverified call order')
+    u.assume('scalar validators are opaque deterministic predicates; built-in scalars have none (open known finding C02-builtin-scalars-unchecked is about spec_validate being trivially true for them, not about this contract)')
+    u.search_case('dynamic/resolve.rs', 'c02_exec')
+    return u
+
+
+UNITS['c02_complete'] = (['C02'], complete_unit)
+SEARCH['c02_complete'] = ['c02_exec']
